@@ -46,3 +46,40 @@ class varstr:
         # the library's special case: a single zero byte is returned unchanged
         'F-varstr-00': lambda string, result: string == b'\0' and result == b'\0',
     }
+
+
+def _stream(pre, n, rest):
+    import io
+    s = io.BytesIO(pre + wire.compact_size(n) + rest)
+    s.seek(len(pre))
+    return s
+
+
+@contract('bitcoinlib.encoding.read_varbyteint', props=('C18', 'C06'))
+class read_varbyteint:
+    """Reading a CompactSize at any stream position returns its value and advances by exactly its length."""
+    params = {'pre': Bytes, 'n': Int, 'rest': Bytes}
+
+    def requires(pre, n, rest):
+        return 0 <= n < 2 ** 64
+
+    def call(pre, n, rest):
+        return {'s': _stream(pre, n, rest)}
+
+    def ensures(pre, n, rest, result, call_args):
+        return result == n and call_args['s'].tell() == len(pre) + wire.compact_size_len(n)
+
+
+@contract('bitcoinlib.encoding.read_varbyteint_return', props=('C18', 'C06'))
+class read_varbyteint_return:
+    """As read_varbyteint, and the consumed bytes are handed back unchanged."""
+    params = {'pre': Bytes, 'n': Int, 'rest': Bytes}
+
+    def requires(pre, n, rest):
+        return 0 <= n < 2 ** 64
+
+    def call(pre, n, rest):
+        return {'s': _stream(pre, n, rest)}
+
+    def ensures(pre, n, rest, result, call_args):
+        return result == (n, wire.compact_size(n)) and call_args['s'].tell() == len(pre) + wire.compact_size_len(n)
